@@ -1,11 +1,15 @@
 import Fix8Model.Codec.TokenLemmas
+import Fix8Model.Codec.RoundTripMsg
+import Fix8Model.Codec.RoundTripNorm
+import Fix8Model.Codec.SchemaUTESTWF
 import Fix8Model.Props.C08
 /-!
 C01 – Message encode/decode round trip preserves every field.
-(token layer and typed-value layer; the message layer follows below as it is proved)
+(token layer, typed-value layer, then the message layer: single decoder steps, sections, repeating groups of any depth,
+the whole message through `Message::factory`, and the generated FIX42UTEST schema)
 -/
 namespace Fix8Model.Props.C01
-open Fix8Model Fix8Model.Codec Fix8Model.Digits
+open Fix8Model Fix8Model.Codec Fix8Model.Codec.RT Fix8Model.Digits
 
 /-- every rendered field `tag=value<SOH>` is tokenised back into exactly its tag text and value, whatever follows
 (any tag below 10^31, any value without SOH shorter than the value buffer – it may contain '=') -/
@@ -72,5 +76,184 @@ theorem C01_int_value_roundtrip (v : Int) (hv : inInt32 v) : canon .int (itoa v)
 /-- non-vacuity -/
 example : extractElement (renderField 58 [97, 61, 98] ++ renderField 10 [48, 48, 48]) = some (renderTag 58, [97, 61, 98], renderField 10 [48, 48, 48]) :=
   C01_token_roundtrip 58 [97, 61, 98] _ (by decide) (by decide) (by decide)
+
+/-! ## message level
+
+Hypotheses are Boolean functions (`… = true`): `SchemaWF S` (trait tables), `Conforms S ts m` (message), `secOk`
+(section items), `elemsOk` (group elements), `stopOk D next` (the input after a group / section is exhausted or starts
+with a token whose tag is outside the tag set `D`).  `C = deepTable S` is the table of all tags at or below each
+group definition. -/
+
+/-! ### layer 1: single decoder steps -/
+
+/-- `MessageBase::decode` consumes one rendered plain field (trait found, tag not yet seen, in the field table,
+canonical value, not a positive-count group, not a Length field) and continues with the item appended -/
+theorem C01_section_step (S : Schema) (ts : List Trait) (perm : Bool) (fuel : Nat) (t : Nat) (v rest : Bytes)
+    (items : List Item) (seen : List Nat) (unk : Bytes) (fu : Option (Bytes × Nat)) (tr : Trait)
+    (htr : findTrait ts t = some tr) (hseen : seen.contains t = false) (hft : S.fieldTable.contains t = true)
+    (ht : t < 65536) (hv : valOk v = true) (hcanon : canon tr.kind v = some v)
+    (hng : (tr.group && countPositive v) = false) (hnl : (tr.kind == .length && t != 9) = false) :
+    decodeSection S ts perm (fuel + 1) (renderField t v ++ rest) items seen unk fu =
+      decodeSection S ts perm fuel rest (.fld t v :: items) (t :: seen) unk fu :=
+  decodeSection_step_fld S ts perm fuel t v rest items seen unk fu tr htr hseen hft ht hv hcanon hng hnl
+
+/-- strict mode: the section loop ends in front of a token whose tag the section does not define, or when no further
+token can be extracted, provided no mandatory field is missing; nothing is consumed -/
+theorem C01_section_finish (S : Schema) (ts : List Trait) (fuel : Nat) (next : Bytes)
+    (items : List Item) (seen : List Nat) (unk : Bytes) (fu : Option (Bytes × Nat))
+    (hstop : ∀ tv, peekTag next = some tv → findTrait ts tv = none) (hmiss : findMissing ts seen = none) :
+    decodeSection S ts false (fuel + 1) next items seen unk fu = .ok ⟨items.reverse, seen, unk, next⟩ :=
+  decodeSection_finish S ts fuel next items seen unk fu hstop hmiss
+
+/-- the field loop of `decode_group` consumes one rendered plain field of the group and continues -/
+theorem C01_elem_step (S : Schema) (fieldOk : Nat → Bool) (gts : List Trait) (fuel : Nat) (t : Nat) (v rest : Bytes)
+    (items : List Item) (seen : List Nat) (tr : Trait)
+    (htr : findTrait gts t = some tr) (hseen : seen.contains t = false) (hpos : (!seen.isEmpty || tr.pos == 1) = true)
+    (hfo : fieldOk t = true) (ht : t < 65536) (hv : valOk v = true) (hcanon : canon tr.kind v = some v)
+    (hng : (tr.group && countPositive v) = false) :
+    decodeElem S fieldOk gts (fuel + 1) (renderField t v ++ rest) items seen =
+      decodeElem S fieldOk gts fuel rest (.fld t v :: items) (t :: seen) :=
+  decodeElem_step_fld S fieldOk gts fuel t v rest items seen tr htr hseen hpos hfo ht hv hcanon hng
+
+/-- the field loop of one element stops in front of a token whose tag the element already has (`more = true`: next
+element) or that the group does not define (`more = false`: end of the group), or when no token can be extracted -/
+theorem C01_elem_finish (S : Schema) (fieldOk : Nat → Bool) (gts : List Trait) (fuel : Nat) (next : Bytes)
+    (items : List Item) (seen : List Nat) (hne : seen ≠ [])
+    (hstop : ∀ tv, peekTag next = some tv → seen.contains tv = false → findTrait gts tv = none) :
+    decodeElem S fieldOk gts (fuel + 1) next items seen = .ok (items, seen, next, moreFlag seen next) :=
+  decodeElem_stop S fieldOk gts fuel next items seen hne hstop
+
+/-! ### layers 2–4: sections and repeating groups -/
+
+/-- **repeating groups nested to any depth**: for a well-formed schema, the element loop of `decode_group` run on the
+bytes `encode_group` wrote for conforming elements `els` of group definition `i` (each element starts with the
+position-1 field, distinct tags of the group, canonical values, nested groups conforming recursively with a positive
+count and at least one element) followed by ANY `next` that is empty or starts with a token whose tag is neither a
+tag of the group nor of anything nested in it, returns exactly `els` and `next` -/
+theorem C01_group_roundtrip (S : Schema) (hS : SchemaWF S = true) (fieldOk : Nat → Bool)
+    (hfo : ∀ t, S.fieldTable.contains t = true → fieldOk t = true)
+    (i : Nat) (els : List (List Item)) (next : Bytes) (fuel : Nat)
+    (hne : els ≠ []) (hok : elemsOk S (S.group i) els = true) (hstop : stopOk ((deepTable S).getD i []) next = true)
+    (hfuel : (encodeElems (S.group i) S els ++ next).length + 2 ≤ fuel) :
+    decodeGroup S fieldOk (S.group i) fuel (encodeElems (S.group i) S els ++ next) [] = .ok (els, next) :=
+  decodeGroup_roundtrip (wf_of_schemaWF hS).groups hfo i els next fuel hne hok hstop hfuel
+
+/-- **one section** (here: the body of message type `mt`; `decodeSection_roundtrip` is the same statement for any trait
+list with `SectionWF`): strict-mode `MessageBase::decode` run on the bytes written for conforming items `its` (plain
+fields, Length/data pairs, groups of any depth) followed by `next` (empty, or starting with a token whose tag is
+neither a tag of the section nor of any group below it) returns `its` in order, appended to what was decoded before,
+and stops exactly in front of `next` -/
+theorem C01_section_roundtrip (S : Schema) (hS : SchemaWF S = true) (mt : Bytes) (ts : List Trait)
+    (hmsg : S.msgs.find? (·.1 == mt) = some (mt, ts))
+    (fuel : Nat) (its : List Item) (next : Bytes) (items : List Item) (seen : List Nat) (unk : Bytes)
+    (fu : Option (Bytes × Nat))
+    (hok : secOk S ts seen its = true) (hstop : stopOk (tagsOf ts ++ belowOf (deepTable S) ts) next = true)
+    (hfuel : (encodeItems ts S its ++ next).length < fuel) :
+    decodeSection S ts false fuel (encodeItems ts S its ++ next) items seen unk fu =
+      .ok ⟨items.reverse ++ its, seenAfter seen its, unk, next⟩ :=
+  decodeSection_roundtrip (wf_of_schemaWF hS).groups ((wf_of_schemaWF hS).body (mt, ts) (List.mem_of_find?_eq_some hmsg))
+    fuel its next items seen unk fu hok hstop hfuel
+
+/-! ### layer 5: the whole message -/
+
+/-- **explicit form**: `Message::factory` (checksum verified) on `Message::encode` of a conforming message returns the
+message with BodyLength set to the decimal payload length and CheckSum to the three checksum digits (the CheckSum
+item at index `chkIndex S` of the trailer, where the decoder's position map leaves it) -/
+theorem C01_roundtrip_explicit (S : Schema) (ts : List Trait) (m : Msg) (hS : SchemaWF S = true)
+    (hmsg : S.msgs.find? (·.1 == m.msgType) = some (m.msgType, ts)) (hm : Conforms S ts m = true) :
+    factory S false (encodeMsg S ts m) = .ok (decodedOf S ts m) :=
+  factory_encodeMsg hS ts m hmsg hm
+
+/-- **C01, message level**: for every schema satisfying `SchemaWF` and every message conforming to it (any message
+type, any subset of fields, canonical values, Length/data pairs with arbitrary NUL-free content in header and body,
+repeating groups nested to any depth), decoding the encoded bytes gives the message back – same type, same header,
+body and trailer items in the same order with the same values and group elements, except for the values of
+BodyLength (9) and CheckSum (10), which `encode` computes (see `SameContent`) – and re-encoding the decoded message
+gives byte-identical output -/
+theorem C01_roundtrip (S : Schema) (mt : Bytes) (ts : List Trait) (m : Msg) (hS : SchemaWF S = true)
+    (hmsg : S.msgs.find? (·.1 == mt) = some (mt, ts)) (hm : Conforms S ts m = true) (hmt : m.msgType = mt) :
+    ∃ m', factory S false (encodeMsg S ts m) = .ok m' ∧ SameContent m m' ∧ encodeMsg S ts m' = encodeMsg S ts m := by
+  subst hmt
+  exact ⟨decodedOf S ts m, factory_encodeMsg hS ts m hmsg hm, sameContent_decodedOf S ts m, encodeMsg_decodedOf hS ts m hm⟩
+
+/-- the same with the look-up of the message type as Boolean hypotheses (`hasMsg S mt`: the schema defines the type,
+`bodyOf S mt`: its body trait list) -/
+theorem C01_roundtrip_by_type (S : Schema) (m : Msg) (hS : SchemaWF S = true) (hmt : hasMsg S m.msgType = true)
+    (hm : Conforms S (bodyOf S m.msgType) m = true) :
+    ∃ m', factory S false (encodeMsg S (bodyOf S m.msgType) m) = .ok m' ∧ SameContent m m' ∧
+      encodeMsg S (bodyOf S m.msgType) m' = encodeMsg S (bodyOf S m.msgType) m :=
+  C01_roundtrip S m.msgType _ m hS (find_msg hmt) hm rfl
+
+/-- group items without elements (`.grp t v []`: a count field set through the API with no element added) are written
+exactly like the plain field `.fld t v`, which is what the decoder returns for them.  `normMsg` rewrites them (at any
+depth) to plain fields; a message that conforms after this rewriting round-trips to its rewritten form -/
+theorem C01_roundtrip_norm (S : Schema) (mt : Bytes) (ts : List Trait) (m : Msg) (hS : SchemaWF S = true)
+    (hmsg : S.msgs.find? (·.1 == mt) = some (mt, ts)) (hm : Conforms S ts (normMsg m) = true) (hmt : m.msgType = mt) :
+    ∃ m', factory S false (encodeMsg S ts m) = .ok m' ∧ SameContent (normMsg m) m' ∧
+      encodeMsg S ts m' = encodeMsg S ts m := by
+  subst hmt
+  refine ⟨decodedOf S ts (normMsg m), factory_encodeMsg_norm hS ts m hmsg hm, sameContent_decodedOf S ts (normMsg m), ?_⟩
+  rw [encodeMsg_decodedOf hS ts (normMsg m) hm, encodeMsg_norm]
+
+/-! ### layer 6: the generated FIX42UTEST schema -/
+
+/-- the trait tables f8c generated for FIX42UTEST (extracted from the compiled C++ on every run) are well formed -/
+theorem C01_utest_wf : SchemaWF utest = true := utest_wf
+
+/-- C01 for the real schema: no schema hypothesis left -/
+theorem C01_roundtrip_utest (mt : Bytes) (ts : List Trait) (m : Msg)
+    (hmsg : utest.msgs.find? (·.1 == mt) = some (mt, ts)) (hm : Conforms utest ts m = true) (hmt : m.msgType = mt) :
+    ∃ m', factory utest false (encodeMsg utest ts m) = .ok m' ∧ SameContent m m' ∧
+      encodeMsg utest ts m' = encodeMsg utest ts m :=
+  C01_roundtrip utest mt ts m utest_wf hmsg hm hmt
+
+/-- the same with the look-up of the message type as a Boolean hypothesis (`hasMsg`, `bodyOf`) -/
+theorem C01_roundtrip_utest_by_type (m : Msg) (hmt : hasMsg utest m.msgType = true)
+    (hm : Conforms utest (bodyOf utest m.msgType) m = true) :
+    ∃ m', factory utest false (encodeMsg utest (bodyOf utest m.msgType) m) = .ok m' ∧ SameContent m m' ∧
+      encodeMsg utest (bodyOf utest m.msgType) m' = encodeMsg utest (bodyOf utest m.msgType) m :=
+  C01_roundtrip utest m.msgType _ m utest_wf (find_msg hmt) hm rfl
+
+/-! ### non-vacuity: a concrete message with a nested group and a data field holding SOH and '=' -/
+
+/-- the body trait list of message type `J` (Allocation) of the generated FIX42UTEST schema -/
+def tsJ : List Trait := bodyOf utest [74]
+
+/-- an Allocation message: `49=A 56=B 34=7 52=20240102-03:04:05.678` and an XmlDataLen/XmlData pair (212/213) whose
+content `a<SOH>b=c` holds SOH and '=' in the header; `70 71 54 55 53 6 75` and the NoAllocs group (78) with two elements
+`79 80`, the first of which holds a nested NoMiscFees group (136) with one element `137 138 139`, in the body -/
+def exMsg : Msg :=
+  { msgType := [74]
+    header := [.fld 8 [70, 73, 88, 46, 52, 46, 50], .fld 9 [48], .fld 35 [74], .fld 49 [65], .fld 56 [66], .fld 34 [55], .fld 52 [50, 48, 50, 52, 48, 49, 48, 50, 45, 48, 51, 58, 48, 52, 58, 48, 53, 46, 54, 55, 56], .fld 212 [53], .fld 213 [97, 1, 98, 61, 99]]
+    body := [.fld 70 [73, 68, 49], .fld 71 [48], .fld 54 [49], .fld 55 [73, 66, 77], .fld 53 [49, 48, 48, 46, 48], .fld 6 [49, 50, 46, 53], .fld 75 [50, 48, 50, 52, 48, 49, 48, 50], .grp 78 [50] [[.fld 79 [65, 67, 67, 49], .fld 80 [54, 48, 46, 48], .grp 136 [49] [[.fld 137 [49, 46, 53], .fld 138 [85, 83, 68], .fld 139 [49]]]], [.fld 79 [65, 67, 67, 50], .fld 80 [52, 48, 46, 48]]]]
+    trailer := [.fld 10 []] }
+
+/-- the two NoAllocs elements of `exMsg` -/
+def exElems : List (List Item) := [[.fld 79 [65, 67, 67, 49], .fld 80 [54, 48, 46, 48], .grp 136 [49] [[.fld 137 [49, 46, 53], .fld 138 [85, 83, 68], .fld 139 [49]]]], [.fld 79 [65, 67, 67, 50], .fld 80 [52, 48, 46, 48]]]
+
+example : utest.msgs.find? (·.1 == [74]) = some ([74], tsJ) := find_msg (by decide +kernel)
+example : Conforms utest tsJ exMsg = true := by decide +kernel
+
+/-- the hypotheses of `C01_roundtrip` are satisfiable on `exMsg`, so its conclusion holds for it -/
+example : ∃ m', factory utest false (encodeMsg utest tsJ exMsg) = .ok m' ∧ SameContent exMsg m' ∧
+    encodeMsg utest tsJ m' = encodeMsg utest tsJ exMsg :=
+  C01_roundtrip_utest [74] tsJ exMsg (find_msg (by decide +kernel)) (by decide +kernel) rfl
+
+/-- `exMsg` with an element-less NoOrders group item `73=0` added through the API: conforms after normalisation -/
+def exMsg0 : Msg := { exMsg with body := exMsg.body ++ [.grp 73 [48] []] }
+
+example : Conforms utest tsJ (normMsg exMsg0) = true := by decide +kernel
+
+example : ∃ m', factory utest false (encodeMsg utest tsJ exMsg0) = .ok m' ∧ SameContent (normMsg exMsg0) m' ∧
+    encodeMsg utest tsJ m' = encodeMsg utest tsJ exMsg0 :=
+  C01_roundtrip_norm utest [74] tsJ exMsg0 utest_wf (find_msg (by decide +kernel)) (by decide +kernel) rfl
+
+/-- the hypotheses of `C01_group_roundtrip` are satisfiable: the NoAllocs group (definition 19) with a nested
+NoMiscFees group, followed by a `10=…` token -/
+example : decodeGroup utest (fun t => utest.fieldTable.contains t) (utest.group 19) 1000
+    (encodeElems (utest.group 19) utest exElems ++ renderField 10 [48, 48, 48]) [] = .ok (exElems, renderField 10 [48, 48, 48]) :=
+  C01_group_roundtrip utest utest_wf _ (fun _ h => h) 19 exElems _ 1000 (by decide) (by decide +kernel) (by decide +kernel)
+    (by decide +kernel)
+
 
 end Fix8Model.Props.C01
